@@ -220,6 +220,30 @@ def uncovered_actions(text):
     return sorted(set(bad))
 
 
+def apalache(ctx, module, inv, cinit="ConstInit", timeout=600):
+    """Unbounded-integer lemma by Apalache (SMT). Load-bearing only as an extra: a reported counterexample is a
+    specification error (exit 2); if the tool is unavailable or times out the lemma is recorded as not discharged."""
+    d = ctx.sub("apalache-" + module)
+    t = time.time()
+    try:
+        rc, out = sh(["apalache-mc", "check", "--cinit=" + cinit, "--inv=" + inv, "--length=0",
+                      "--out-dir=" + d, os.path.join(SPEC, module + ".tla")], cwd=d, timeout=timeout)
+    except (ToolError, FileNotFoundError) as e:
+        ctx.notes.append("apalache %s!%s not discharged: %s" % (module, inv, e))
+        return False
+    rec = {"tool": "apalache", "module": module, "invariant": inv, "wall_s": round(time.time() - t, 1),
+           "outcome": "NoError" if "The outcome is: NoError" in out else "other"}
+    ctx.mc_runs.append(rec)
+    if "The outcome is: Error" in out or "violat" in out.lower():
+        sys.stdout.write(out[-2000:])
+        raise ToolError("Apalache found a counterexample to %s!%s" % (module, inv))
+    if rec["outcome"] != "NoError":
+        ctx.notes.append("apalache %s!%s not discharged (rc=%s)" % (module, inv, rc))
+        return False
+    log("  apalache %-18s %-24s NoError  %6.1fs" % (module, inv, time.time() - t))
+    return True
+
+
 def tlc_gen(ctx, module, consts, label, workers=None, env=None, invariant="Emit", timeout=3600):
     """Run a Gen_* module; returns path of cases.ndjson and count."""
     d = ctx.sub("gen-" + label)
